@@ -107,12 +107,18 @@ impl TryFrom<&str> for FeelYearsAndMonthsDuration {
         if let Ok(years) = years_match.as_str().parse::<u64>() {
           total_months += (years as i128) * (MONTHS_IN_YEAR as i128);
           is_valid = true;
+        } else {
+          // the component is written, but its value is not representable: the literal is not valid
+          return Err(err_invalid_years_and_months_duration_literal(value));
         }
       }
       if let Some(months_match) = captures.name("months") {
         if let Ok(months) = months_match.as_str().parse::<u64>() {
           total_months += months as i128;
           is_valid = true;
+        } else {
+          // the component is written, but its value is not representable: the literal is not valid
+          return Err(err_invalid_years_and_months_duration_literal(value));
         }
       }
       if is_valid {
